@@ -6,6 +6,9 @@ import os
 VERIF = os.path.dirname(os.path.dirname(os.path.abspath(__file__)))
 
 CHECKS = {
+    "C04": ("reference-oracle monitor on the initialised chain: process_drift + recorded/measured rates vs quadrature mean of the truncated process in the declared representation; diffusion and variance-gap monitors",
+            "Held-on-observed: all representations (native, ZERO, CENTER, ONEONE, TILDE) x families x grids x levels x methods; copula margins with a-priori slack.",
+            "Truncated process = drift fixed in the declared representation, nu restricted to the grid bounds; finite-variation copulas only.", "3/C04"),
     "C02": ("exact black-box measurement of the map uniform -> state of every sampler (recursive bisection to one ulp; integer bisection over the 2^32 words for the table method), scripted variate sources for the batch call, replay of the same uniforms under 4 orders / fresh samplers",
             "Held-on-observed: pre-image lengths vs target vector (raw) or independent quadrature cell masses (chains) for all 7 sampler classes incl. n-d; exact never-origin / never-outside / never-zero-probability monitors; batch == single-uniform; history independence.",
             "Assumes no hidden piece between equal neighbours below the probe spacing; a set of uniforms of measure <= 1e-12 next to 1 is exempt.", "3/C02"),
